@@ -64,6 +64,8 @@ InitState(cfg) ==
    stopAt |-> -1,           \* Stop(): deadline at which the context is cancelled
    events |-> <<>>,         \* notifications delivered to OnChangeState callbacks
    everLogged |-> FALSE,
+   user |-> CfgUser, pass |-> CfgPass,   \* the initiator's configured credentials ("" = not configured)
+   saveFailOnly |-> 0,      \* ... refuses exactly this Save (0: none)
    saveFailFrom |-> 0,      \* the application's message store refuses every Save from this one on (0: never)
    nsaves |-> 0,            \* Save calls so far
    staleTR |-> FALSE]       \* (trace validation) a TestRequest of a timer that outlived a logout was tolerated
@@ -81,7 +83,7 @@ TinMs(s)     == (s.hb + Tol(s)) * 1000
 \* every send attempt consumes a number; the message is saved under it before
 \* it reaches the wire
 \* the store refuses the next Save: the message gets its number and is then neither stored nor transmitted (C19)
-Failing(s) == s.saveFailFrom > 0 /\ s.nsaves + 1 >= s.saveFailFrom
+Failing(s) == (s.saveFailFrom > 0 /\ s.nsaves + 1 >= s.saveFailFrom) \/ (s.saveFailOnly > 0 /\ s.nsaves + 1 = s.saveFailOnly)
 Emit(s, m0) ==
   LET n == s.outSeq + 1
       m == [m0 EXCEPT !.seq = n]
@@ -196,11 +198,11 @@ Recv(s, a) ==
 \* Session.Run(): acceptor waits for a Logon; initiator sends its Logon first
 Run(s) ==
   IF s.cfg.role = "initiator"
-  THEN Emit(Ev([s EXCEPT !.st = "WLA"], "request?"), [Msg("A", 0) EXCEPT !.hb = s.cfg.hbCfg, !.enc = s.cfg.encCfg, !.user = CfgUser, !.pass = CfgPass])
+  THEN Emit(Ev([s EXCEPT !.st = "WLA"], "request?"), [Msg("A", 0) EXCEPT !.hb = s.cfg.hbCfg, !.enc = s.cfg.encCfg, !.user = s.user, !.pass = s.pass])
   ELSE [s EXCEPT !.st = "WL"]
 
 \* Session.LogonRequest() on an initiator that logged out: a new Logon, waiting for the answer again
-Relogon(s) == Emit(Ev([s EXCEPT !.st = "WLA"], "request?"), [Msg("A", 0) EXCEPT !.hb = s.cfg.hbCfg, !.enc = s.cfg.encCfg, !.user = CfgUser, !.pass = CfgPass])
+Relogon(s) == Emit(Ev([s EXCEPT !.st = "WLA"], "request?"), [Msg("A", 0) EXCEPT !.hb = s.cfg.hbCfg, !.enc = s.cfg.encCfg, !.user = s.user, !.pass = s.pass])
 
 AppType == "V"   \* the harness sends a MarketDataRequest as its application message
 AppSend(s) == Emit(s, Msg(AppType, 0))
